@@ -4,7 +4,7 @@ cd /verif/seeded
 for d in ${1:-}*/; do
   n=${d%/}; p=$(python3 -c "import json;print(json.load(open('/verif/seeded/$n/meta.json'))['property'])")
   git -C /repo apply /verif/seeded/$n/patch.diff || { echo "$n: patch does not apply"; continue; }
-  out=$(cd /verif && timeout 1500 /verif/bin/vcheck run $p 2>&1 | grep -ac "^VIOLATION")
+  out=$(cd /verif && VERIF_EVIDENCE_DIR=/tmp/verif-seed-evidence VERIF_NO_TV=1 timeout 1500 /verif/bin/vcheck run $p 2>&1 | grep -ac "^VIOLATION")
   git -C /repo checkout -q -- .
   echo "$n: violations=$out"
 done
